@@ -155,7 +155,7 @@ std::vector<T> values2(std::string const &entry)
       return values<T>(entry, 0);
     std::vector<T> r = lattice<T>();
     vf::rng g(vf::seed_for(entry));
-    for (int i = 0; i < 300; ++i)
+    for (int i = 0; i < 1500; ++i)
       r.push_back(static_cast<T>(g.next()));
     return r;
   }
@@ -163,7 +163,7 @@ std::vector<T> values2(std::string const &entry)
   {
     std::vector<T> r = lattice<T>();
     vf::rng g(vf::seed_for(entry));
-    std::size_t n = vf::tier<std::size_t>(300, 3000);
+    std::size_t n = vf::tier<std::size_t>(1000, 3000);
     for (std::size_t i = 0; i < n; ++i)
     {
       std::uint64_t x = g.next() >> g.below(sizeof(T) * 8);
@@ -194,7 +194,7 @@ void trunc()
   if (!vf::entry_enabled(e))
     return;
   vf::set_entry(e);
-  auto vals = values<S>(e, vf::tier<std::size_t>(10000, 1000000));
+  auto vals = values<S>(e, vf::tier<std::size_t>(100000, 1000000));
   std::size_t const chunk = 4096;
   for (std::size_t c = 0, ci = 0; c < vals.size(); c += chunk, ++ci)
   {
@@ -267,7 +267,7 @@ void from_int_one(char const *ename)
     return;
   vf::set_entry(e);
   i128 const size = static_cast<i128>(fcppt::enum_::size<E>::value);
-  std::vector<V> vals = values<V>(e, vf::tier<std::size_t>(2000, 200000));
+  std::vector<V> vals = values<V>(e, vf::tier<std::size_t>(20000, 200000));
   // values around the size and around size + 2^k (the narrowing traps)
   for (int k : {8, 16, 32})
     for (int d = -2; d <= 2; ++d)
@@ -456,7 +456,7 @@ void unsigned_fns()
   }
   // unary
   {
-    auto us = values<T>("unary-" + t, vf::tier<std::size_t>(20000, 2000000));
+    auto us = values<T>("unary-" + t, vf::tier<std::size_t>(200000, 2000000));
     std::vector<T> one{0};
     std::size_t const chunk = 8192;
     std::string e = "unary<" + t + ">";
